@@ -5,6 +5,6 @@ CONSTANTS
   PagesDual = {1252, 932}
   Rich = FALSE
   Sweep = TRUE
-  AsWas = FALSE
+  AsWas = TRUE
 INVARIANTS Refines
 CHECK_DEADLOCK FALSE
